@@ -848,6 +848,8 @@ package jet
 //@   callsite (*Set).GetTemplate 0 requires [includeIfExists-looks-the-name-up-as-written-from-the-root] {C15,C09} templatePath == siteret("(reflect.Value).String", 0, 0) && s == a.runtime.escapeeWriter.set
 //@   callsite (*Set).GetTemplate count 1 {C15,C09}
 //@   callsite (*Arguments).Get 0 requires [includeIfExists-takes-the-name-from-its-first-argument] {C15,C09} argumentIndex == 0
+//@   check [includeIfExists-answers-only-after-asking-the-set] {C09,C16} ncalls("(*Set).GetTemplate") == 1
+//@   check [includeIfExists-renders-exactly-when-the-set-found-the-template] {C09} ite(lastret("(*Set).GetTemplate", 1) != nil, ncalls("(*Runtime).executeList") == 0, ncalls("(*Runtime).executeList") == 1)
 //@   check [includeIfExists-missing-renders-nothing] ncalls("(*Runtime).executeList") == 0 ==> result == hiddenFalse
 //@   check [includeIfExists-existing-renders-once] ncalls("(*Runtime).executeList") == 1 ==> result == hiddenTrue
 //@   callsite (*Runtime).executeList 0 requires [includeIfExists-runs-root-with-its-blocks] list == RootOf(lastret("(*Set).GetTemplate", 0)).Root && st.scope.blocks == lastret("(*Set).GetTemplate", 0).processedBlocks && st.scope.parent == old(a.runtime.scope) && st.escapeeWriter.Writer == old(a.runtime.escapeeWriter.Writer)
